@@ -912,6 +912,29 @@ func ExtractSeriesOfJsonObjects(body []byte) ([]map[string]interface{}, error) {
 	return objects, nil
 }
 
+// ExtractSeriesOfJsonObjectsWithNumbers is ExtractSeriesOfJsonObjects with numbers kept as json.Number (their
+// decimal text) instead of float64, for callers that marshal the objects again: an integer beyond 2^53 survives.
+func ExtractSeriesOfJsonObjectsWithNumbers(body []byte) ([]map[string]interface{}, error) {
+	var objects []map[string]interface{}
+	decoder := json.NewDecoder(bytes.NewReader(body))
+	decoder.UseNumber()
+
+	for {
+		var obj map[string]interface{}
+		if err := decoder.Decode(&obj); err != nil {
+			if err == io.EOF {
+				break
+			}
+
+			return nil, fmt.Errorf("ExtractSeriesOfJsonObjectsWithNumbers: error decoding JSON: %v", err)
+		}
+
+		objects = append(objects, obj)
+	}
+
+	return objects, nil
+}
+
 func sendErrorWithStatus(logger *log.Logger, ctx *fasthttp.RequestCtx, messageToUser string,
 	extraMessageToLog string, err error, statusCode int, doLogging bool) {
 	// Get the caller function name, file name, and line number.
